@@ -5,7 +5,7 @@
 (* (the terminal state of the pipeline model, model-checked in            *)
 (* MC_Nitrogql) and by the C18 clauses about where diagnostics point.      *)
 (***************************************************************************)
-EXTENDS Nitrogql, Lexer, Json, IOUtils
+EXTENDS PipelineTrace, Lexer, Json, IOUtils
 Rec == ndJsonDeserialize(IOEnv.TRACE)
 VARIABLE l
 IsEvent(k) == l <= Len(Rec) /\ Rec[l].ev = k /\ l' = l + 1
@@ -61,10 +61,15 @@ Judge(e) ==
       THEN <<Item("diagnostic-on-faultless-file", "a diagnostic is located in a file that has no fault", e, 0)>> ELSE <<>>)
   \o (IF ~o.panicked /\ wr # x.writes THEN <<Item("written-files", "files written differ from what the pipeline writes for this project", e, [expected |-> x.writes])>> ELSE <<>>)
   \o (IF ~o.panicked /\ machine /\ e.format = "json" /\ li # wr THEN <<Item("listed-files", "generate does not list exactly the files it wrote", e, 0)>> ELSE <<>>)
+  \o (IF o.panicked \/ e.stages = <<>> THEN <<>>
+      ELSE LET r == Replay(p, e.stages, 1, S0) IN
+           IF r.ok THEN <<>> ELSE <<Item("stage-trace", "the recorded stages of the run are not a behaviour of the pipeline specification", e,
+                                         [at |-> r.at, why |-> r.why, event |-> IF r.at \in DOMAIN e.stages THEN e.stages[r.at] ELSE [stage |-> "end"]])>>)
   \o (IF o.otherChanges # <<>> THEN <<Item("project-changed", "something else in the project directory changed", e, o.otherChanges)>> ELSE <<>>)
 
 TRun == /\ IsEvent("CliRun")
         /\ LET its == Judge(Rec[l]) IN \A i \in DOMAIN its : PrintT(<<"ITEM", ToJson(its[i])>>)
+        /\ PrintT(<<"STAT", ToJson([l |-> l, stages |-> Len(Rec[l].stages), panicked |-> Rec[l].obs.panicked])>>)
         /\ UNCHANGED vars
 Init == l = 1 /\ PInit({[schema |-> <<{}>>, ops |-> <<{}>>, commands |-> <<"check">>, gen |-> {}]})
 Next == TRun
